@@ -66,6 +66,24 @@ func pagScenario(t *rapid.T, base int) []sop {
 		}
 		groups = append(groups, []sop{{Kind: "burst", Burst: b}})
 	}
+	// runs of consecutive bins with non-unit weights (whole pages filled, or most of them): dense content held in pages
+	nr := rapid.IntRange(0, 2).Draw(t, "wruns")
+	for i := 0; i < nr; i++ {
+		p := rapid.IntRange(lo-3, hi+3).Draw(t, "runpage")
+		start := base + 32*p + rapid.SampledFrom([]int{0, 0, 5, 16, 31}).Draw(t, "runstart")
+		n := rapid.SampledFrom([]int{17, 20, 32, 33, 40, 64, 70}).Draw(t, "runlen")
+		w := rapid.SampledFrom([]float64{2, 2.5, 0.5}).Draw(t, "runw")
+		var g []sop
+		for j := 0; j < n; j++ {
+			if rapid.IntRange(0, 9).Draw(t, "runhole") == 0 {
+				continue
+			}
+			g = append(g, sop{Kind: "addw", Index: start + j, W: w})
+		}
+		if len(g) > 0 {
+			groups = append(groups, g)
+		}
+	}
 	// scattered unit entries (mostly one per page)
 	ns := rapid.SampledFrom([]int{0, 0, 3, 10, 24, 30, 40, 63, 64, 70}).Draw(t, "singles")
 	if ns > 0 {
@@ -107,6 +125,21 @@ func TestC04_PaginatedScenarios(t *testing.T) {
 				t.Fatalf("C04 scenario: %s", msg)
 			}
 		}
+		if rapid.IntRange(0, 2).Draw(t, "clearandrebuild") == 0 {
+			// the store is cleared and rebuilt in another state of the same family (pages kept for reuse, some of them
+			// never touched again)
+			if msg := u.apply(sop{Kind: "clear"}); msg != "" {
+				t.Fatalf("C04 scenario: %s", msg)
+			}
+			cl.logf("Clear")
+			for _, op := range pagScenario(t, base) {
+				cl.logf("%s", op)
+				if msg := u.apply(op); msg != "" {
+					t.Fatalf("C04 scenario: %s", msg)
+				}
+			}
+			cl.label("scenario:cleared-and-rebuilt")
+		}
 		if rapid.Bool().Draw(t, "lookfirst") {
 			if msg := u.invariant(); msg != "" {
 				t.Fatalf("C04 paginated scenario: the receiver differs from its model %s: %s", u.exp(), msg)
@@ -137,6 +170,16 @@ func TestC04_PaginatedScenarios(t *testing.T) {
 			}
 			if msg := u.invariant(); msg != "" {
 				t.Fatalf("C04 paginated scenario: after further additions the store differs from the model %s: %s", u.exp(), msg)
+			}
+			// its serialized forms carry exactly that content
+			if rt := rapid.SampledFrom([]string{"", "proto", "encdec"}).Draw(t, "roundtrip"); rt != "" {
+				if msg := u.apply(sop{Kind: rt, Meth: rapid.Bool().Draw(t, "viamethod")}); msg != "" {
+					t.Fatalf("C04 paginated scenario: %s: %s", rt, msg)
+				}
+				cl.logf("%s", rt)
+				if msg := u.invariant(); msg != "" {
+					t.Fatalf("C04 paginated scenario: after a %s round trip the store differs from the model %s: %s", rt, u.exp(), msg)
+				}
 			}
 		}
 		for e, n := range u.events {
